@@ -20,7 +20,8 @@ RULE = ("Resources with counts in -1..8 (+ a few large), memory strings across B
         "fractional values (<= 6 significant digits, zero padding, families of equal sizes written differently), wall "
         "times across MM:SS / H+:MM:SS / D+:HH:MM:SS with differing digit counts (lexicographic-vs-duration traps, equal "
         "durations written differently), extra_args dicts, partitions incl. '' and blanks; constructor calls with one "
-        "injected fault (exclusive combination, non-positive count, mutated memory/time string); combine_max of 0..4 "
+        "injected fault (exclusive combination, non-positive count, mutated memory/time string or one of ~100 hand-written "
+        "near misses of the two grammars, each also run once as a corner case); combine_max of 0..4 "
         "operands; update with field keys, extra_args= and free keys in random order; with_defaults / "
         "maybe_with_defaults with and without None; dict/from_dict round trips, from_dict of dicts with unknown keys; "
         "to_slurm_options; _maybe_max_resources (NestedPipeFunc) with 0..4 children, some without resources, with and "
@@ -302,6 +303,18 @@ def mutate(rng, t):
     return rng.choice([t + "\n", " " + t, t + " ", t[:p], t.replace(":", ".", 1), t.replace(".", ":", 1), t + t])
 
 
+# near misses of the two grammars (some of them are valid: the model decides, not this list)
+EDGE_MEM = ["1.GB", ".5GB", "1..5GB", "1.5.GB", "1.5.5GB", "GB", "B", "1G", "1", "", "1.5", "1 GB", "1.5 GB", "1GB ",
+            " 1GB", "1e3GB", "1E3B", "-1GB", "+1GB", "1_0GB", "1GiB", "1KiB", "1BB", "1kB", "1Kb", "1kb", "1EB", "1ZB",
+            "1XB", "1GBB", "1GGB", "1.0.B", "0B", "0.0B", "00.00gB", "1,5GB", "1GB\n", "1gb\n", "\n1GB", "1\nGB",
+            "1.5B", "0.001KB", "1.GB\n", "1.", "1.B", "12.B", "1.KB", "5.", ".B", "1.5", "0x1GB", "1GB1", "GB1"]
+EDGE_TIME = ["1:2:3", "1:00", "100:00", "1:00:00:00:00", ":00:00", "00:00:", "0:0:00", "24", "00", "", ":", "::",
+             "1-00:00:00", "00:00:00:00", "123:00:00:00", "1:1:00:00", "12:345:00", "1:00:60", " 1:00:00", "1:00:00 ",
+             "1:00:00\n", "10:00\n", "\n10:00", "1:00:0", "1:0:00", "001:00:00", "00:000", "000:00", "0:00", "00:0",
+             "1:00:00:0", "1:00:000:00", "12:34", "99:99:99", "99:99:99:99", "1.00:00", "1:00.00", "a:00", "00:aa",
+             "1:00:00:00", "-1:00:00", "+1:00:00", "1_0:00:00", "1 :00:00", "00:00:00", "0:00:00:00"]
+
+
 def gen_extra(rng, n=None):
     n = rng.choice([0, 0, 1, 2, 3]) if n is None else n
     return [[k, rng.choice(XVALS)] for k in rng.sample(XKEYS, n)]
@@ -344,9 +357,9 @@ def gen_fault(rng, a):
     elif op == 3:
         a["gpus"] = rng.choice([-1, -2, 0])
     elif op in (4, 5):
-        a["memory"] = mutate(rng, a["memory"] or gen_mem(rng))
+        a["memory"] = rng.choice(EDGE_MEM) if rng.random() < 0.4 else mutate(rng, a["memory"] or gen_mem(rng))
     else:
-        a["time"] = mutate(rng, a["time"] or gen_time(rng))
+        a["time"] = rng.choice(EDGE_TIME) if rng.random() < 0.4 else mutate(rng, a["time"] or gen_time(rng))
     return a
 
 
@@ -413,10 +426,14 @@ CORNER = [
                           "time": "10:00\n", "partition": None, "extra_args": [], "mode": "external"}},
     {"kind": "combine", "rs": []},
 ]
+_BLANK = {"cpus": None, "cpus_per_node": None, "nodes": None, "memory": None, "gpus": None, "time": None,
+          "partition": None, "extra_args": [], "mode": "external"}
+CORNER += [{"kind": "new", "a": {**_BLANK, "memory": m}} for m in EDGE_MEM]
+CORNER += [{"kind": "new", "a": {**_BLANK, "time": t}} for t in EDGE_TIME]
 
 
 def generate(rng, tier, mult):
-    n = (120 if tier == "quick" else 2500) * mult
+    n = (120 if tier == "quick" else 5000) * mult
     cases = list(CORNER)
     for _ in range(n):
         a = gen_valid(rng, rich=True)
